@@ -133,6 +133,25 @@ pub fn shrink(s: &Scn, viol: &Viol) -> Vec<Scn> {
     out
 }
 
+thread_local! { static DEFERRED: std::cell::RefCell<Option<String>> = const { std::cell::RefCell::new(None) }; }
+
+/// An accepted execution is unsound iff its bound public values contradict the definition.
+fn unsound(case: &OpCase, publics: &[Fq]) -> Option<String> {
+    match ops::judge(case, publics) {
+        ops::Judgement::Holds => None,
+        ops::Judgement::NonCanonicalExposure(m) => {
+            DEFERRED.with(|d| {
+                if d.borrow().is_none() {
+                    *d.borrow_mut() = Some(m)
+                }
+            });
+            None
+        }
+        ops::Judgement::Inadmissible => Some("the published inputs are outside the operation's domain (or its assertion is false), yet the circuit is satisfied".into()),
+        ops::Judgement::Wrong(e) => Some(e),
+    }
+}
+
 pub struct Outcome {
     pub verdict: Verdict,
 }
@@ -140,6 +159,7 @@ pub struct Outcome {
 /// Executes one operation scenario. `prop` only labels the violation text.
 pub fn run(s: &Scn, st: &mut Stats, check_structure: bool) -> Verdict {
     let case = &s.case;
+    DEFERRED.with(|d| *d.borrow_mut() = None);
     let k = match min_k(case) {
         Ok(k) => k,
         Err(e) => {
@@ -150,10 +170,8 @@ pub fn run(s: &Scn, st: &mut Stats, check_structure: bool) -> Verdict {
     st.inc(&format!("op.{}", case.op));
     st.inc(&format!("config.cols{}_mbl{}", case.cols, case.mbl));
     let rel = OpRel { case: case.clone() };
-    let ins: Vec<Fq> = case.ins.iter().map(|x| x.0).collect();
-    let known = || MidnightCircuit::new(&rel, Value::known(vec![]), Value::known(ins.clone()), Some(case.mbl));
-    let n_in = ops::n_inputs(case);
-    let admissible = ops::admissible(case);
+    let wit = ops::witness(case);
+    let known = || MidnightCircuit::new(&rel, Value::known(vec![]), Value::known(wit.clone()), Some(case.mbl));
 
     // (1) structure with unknown witnesses
     let d0 = if check_structure {
@@ -171,42 +189,49 @@ pub fn run(s: &Scn, st: &mut Stats, check_structure: bool) -> Verdict {
     let honest = run_mock(k, &known(), &[], true);
     st.events += honest.assignments as u64;
     st.add("assignments", honest.assignments as u64);
-    let class = if admissible { "admissible" } else { "inadmissible" };
-    st.inc(&format!("inputs.{class}"));
-    match (&honest.verdict, admissible) {
-        (MockVerdict::Accept, true) => {
-            let (bi, bo) = honest.bound_plain.split_at(n_in.min(honest.bound_plain.len()));
-            if bi != ins.as_slice() {
-                return Verdict::Harness(format!("{}: bound inputs {:?} differ from the witness inputs", case.op, bi.len()));
+    let desc = || format!("{} {:?} {:?} on inputs {:?} {:?}", case.op, case.p, case.big, case.ins, case.bins);
+    let pubs = |v: &[Fq]| v.iter().map(|x| Fe(*x)).collect::<Vec<_>>();
+    let admissible = match &honest.verdict {
+        MockVerdict::Accept => match ops::judge(case, &honest.bound_plain) {
+            ops::Judgement::Holds => true,
+            ops::Judgement::NonCanonicalExposure(m) => {
+                return Verdict::Violation(Viol::new(
+                    "NonCanonicalExposure",
+                    format!("NonCanonicalExposure:honest:{}", case.op),
+                    format!("{}: the honest execution publishes a non-canonical representation: {m}", desc()),
+                ))
             }
-            if let Err(e) = ops::holds(case, bi, bo) {
+            ops::Judgement::Wrong(e) => {
                 return Verdict::Violation(Viol::new(
                     "WrongResult",
                     format!("WrongResult:{}", case.op),
-                    format!("{} {:?} {:?} on inputs {:?}: honest circuit is satisfied but {e}", case.op, case.p, case.big, case.ins),
+                    format!("{}: the honest circuit is satisfied with public values {:?}, but {e}", desc(), pubs(&honest.bound_plain)),
+                ))
+            }
+            ops::Judgement::Inadmissible => {
+                return Verdict::Violation(Viol::new(
+                    "DomainNotEnforced",
+                    format!("DomainNotEnforced:{}", case.op),
+                    format!("{}: the inputs are outside the documented domain (or the assertion is false) but the circuit is satisfied with public values {:?}", desc(), pubs(&honest.bound_plain)),
+                ))
+            }
+        },
+        v => {
+            // not satisfiable with the honest witness: fine iff the inputs are inadmissible
+            if ops::expected_admissible(case) {
+                return Verdict::Violation(Viol::new(
+                    "Incomplete",
+                    format!("Incomplete:{}", case.op),
+                    format!("{}: admissible inputs, yet not satisfiable with the honest witness: {v:?}", desc()),
                 ));
             }
-        }
-        (v, true) => {
-            return Verdict::Violation(Viol::new(
-                "Incomplete",
-                format!("Incomplete:{}", case.op),
-                format!("{} {:?} {:?} on admissible inputs {:?} is not satisfiable with the honest witness: {v:?}", case.op, case.p, case.big, case.ins),
-            ))
-        }
-        (MockVerdict::Accept, false) => {
-            let (bi, bo) = honest.bound_plain.split_at(n_in.min(honest.bound_plain.len()));
-            return Verdict::Violation(Viol::new(
-                "DomainNotEnforced",
-                format!("DomainNotEnforced:{}", case.op),
-                format!("{} {:?} {:?}: inputs {:?} are outside the documented domain but the circuit is satisfied with outputs {:?}", case.op, case.p, case.big, bi.iter().map(|x| Fe(*x)).collect::<Vec<_>>(), bo.iter().map(|x| Fe(*x)).collect::<Vec<_>>()),
-            ));
-        }
-        (_, false) => {
             st.probe("inadmissible_input_rejected");
+            false
         }
-    }
+    };
+    st.inc(if admissible { "inputs.admissible" } else { "inputs.inadmissible" });
     st.nontrivial(prng::digest(serde_json::to_string(case).unwrap().as_bytes()));
+    let _ = &pubs;
 
     // (3) structure with the concrete witness (closures invoked) must be the same
     if let Some(d0) = &d0 {
@@ -246,21 +271,19 @@ pub fn run(s: &Scn, st: &mut Stats, check_structure: bool) -> Verdict {
         st.nontrivial(prng::digest(format!("{}|{}", case.static_key(), serde_json::to_string(plan).unwrap()).as_bytes()));
         match &r.verdict {
             MockVerdict::Accept => {
-                let (bi, bo) = r.bound_plain.split_at(n_in.min(r.bound_plain.len()));
                 let changed_out = r.bound_plain != honest.bound_plain;
                 st.inc(if changed_out { "accepted_with_other_public_values" } else { "accepted_same_public_values" });
-                if let Err(e) = ops::holds(case, bi, bo) {
+                if let Some(e) = unsound(case, &r.bound_plain) {
                     return Verdict::Violation(
                         Viol::new(
                             "Unsound",
                             format!("Unsound:{}", case.op),
                             format!(
-                                "{} {:?} {:?}: with the Byzantine edit {plan:?} the circuit is satisfied with public inputs {:?} and outputs {:?}: {e}",
+                                "{} {:?} {:?}: with the Byzantine edit {plan:?} the circuit is satisfied with public values {:?}: {e}",
                                 case.op,
                                 case.p,
                                 case.big,
-                                bi.iter().map(|x| Fe(*x)).collect::<Vec<_>>(),
-                                bo.iter().map(|x| Fe(*x)).collect::<Vec<_>>()
+                                pubs(&r.bound_plain)
                             ),
                         )
                         .with_hint(serde_json::to_value(plan).unwrap()),
@@ -291,19 +314,17 @@ pub fn run(s: &Scn, st: &mut Stats, check_structure: bool) -> Verdict {
                             let (v2, bp2, _) = crate::opcirc::bind_and_verify(&mut p);
                             if v2 == MockVerdict::Accept {
                                 st.inc("accepted_after_repair");
-                                let (bi, bo) = bp2.split_at(n_in.min(bp2.len()));
-                                if let Err(e) = ops::holds(case, bi, bo) {
+                                if let Some(e) = unsound(case, &bp2) {
                                     return Verdict::Violation(
                                         Viol::new(
                                             "Unsound",
                                             format!("Unsound:{}", case.op),
                                             format!(
-                                                "{} {:?} {:?}: with the Byzantine edit {plan:?} followed by {made} local repair(s) of other cells in the failing gate rows, the circuit is satisfied with public inputs {:?} and outputs {:?}: {e}",
+                                                "{} {:?} {:?}: with the Byzantine edit {plan:?} followed by {made} local repair(s) of other cells in the failing gate rows, the circuit is satisfied with public values {:?}: {e}",
                                                 case.op,
                                                 case.p,
                                                 case.big,
-                                                bi.iter().map(|x| Fe(*x)).collect::<Vec<_>>(),
-                                                bo.iter().map(|x| Fe(*x)).collect::<Vec<_>>()
+                                                pubs(&bp2)
                                             ),
                                         )
                                         .with_hint(serde_json::to_value(plan).unwrap()),
@@ -338,6 +359,15 @@ pub fn run(s: &Scn, st: &mut Stats, check_structure: bool) -> Verdict {
                 }
             }
         }
+    }
+    if let Some(m) = DEFERRED.with(|d| d.borrow_mut().take()) {
+        // reported last, so that it never masks another violation of the same run
+        let fam: Vec<&str> = case.op.split('.').take(2).collect();
+        return Verdict::Violation(Viol::new(
+            "NonCanonicalExposure",
+            format!("NonCanonicalExposure:{}", fam.join(".")),
+            format!("{} {:?}: under a Byzantine choice of limbs the circuit is satisfied and the operation is correct on the residues, but {m}", case.op, case.p),
+        ));
     }
     if st.samples.is_empty() {
         st.sample(0, json!({"case": case, "k": k, "assignments": honest.assignments, "plans": plans.len(), "first_plan": plans.first()}));
